@@ -43,7 +43,10 @@ def fpRT (c : Case) : Verdict :=
       let kind := (if c.input.getD "id" "" == "Custom" then "custom" else if (c.input.getD "id" "").startsWith "Randomized" then "randomized" else "parrot")
       let tag0 := s!"{kind},flags={flags},{if repr then "repr" else "not-repr"}" ++
         (if es.any (fun e => typeId e == 41) then ",psk" else "") ++ (if es.any (fun e => typeId e == 65037) then ",ech" else "") ++
-        (if es.any isPadding then ",padded" else ",unpadded") ++ (if es.any (fun e => !hasWriterB e) then ",generic" else "")
+        (if es.any isPadding then ",padded" else ",unpadded") ++ (if es.any (fun e => !hasWriterB e) then ",generic" else "") ++
+        (match c.input.get "reuse" with
+         | some r => if r.endsWith ":0" then ",reuse-current" else ",reuse-kept"
+         | none => "")
       match c.output.get "fperr", c.output.get "applyerr" with
       | some e, _ =>
         -- the fingerprinter refused the capture
